@@ -222,7 +222,7 @@ pub struct HopModel {
 
 #[derive(Clone, Debug)]
 pub enum HopEvent {
-    Complete { dur: Duration, host: IpAddr, src: u16, dst: u16, seq: u16, kind: IcmpPacketType, tos: Option<TypeOfService>, ext: Option<Extensions> },
+    Complete { dur: Duration, host: IpAddr, src: u16, dst: u16, seq: u16, kind: IcmpPacketType, tos: Option<TypeOfService>, ext: Option<Extensions>, nat: Option<bool> },
     Awaited { src: u16, dst: u16, seq: u16, loss: Loss },
     Failed { src: u16, dst: u16, seq: u16 },
 }
@@ -266,9 +266,20 @@ pub fn aggregate(rounds: &[&BuiltRound]) -> Vec<HopModel> {
     let mut hops: Vec<HopModel> = vec![HopModel::default(); 256];
     for r in rounds {
         let loss = classify_loss(&r.probes);
+        // NAT rule (C19), walked per round: a responder that quotes UDP checksums is compared
+        // with the previous such responder of the round (the first: with the checksum as sent)
+        let mut prev_quoted: Option<u16> = None;
         for (i, p) in r.probes.iter().enumerate() {
             match p {
                 ProbeStatus::Complete(c) => hops[usize::from(c.ttl.0)].events.push(HopEvent::Complete {
+                    nat: match (c.expected_udp_checksum, c.actual_udp_checksum) {
+                        (Some(exp), Some(act)) => {
+                            let differs = prev_quoted.map_or(exp.0 != act.0, |q| q != act.0);
+                            prev_quoted = Some(act.0);
+                            Some(differs)
+                        }
+                        _ => None,
+                    },
                     dur: c.received.duration_since(c.sent).unwrap_or_default(),
                     host: c.host,
                     src: c.src_port.0,
@@ -289,6 +300,15 @@ pub fn aggregate(rounds: &[&BuiltRound]) -> Vec<HopModel> {
 
 fn close(a: f64, b: f64, rel: f64) -> bool {
     (a - b).abs() <= rel * a.abs().max(b.abs()).max(1e-9)
+}
+
+/// NAT status of a hop: that of the latest response that quoted UDP checksums, else not applicable.
+pub fn model_nat(m: &HopModel) -> trippy_core::NatStatus {
+    match m.events.iter().rev().find_map(|e| if let HopEvent::Complete { nat: Some(d), .. } = e { Some(*d) } else { None }) {
+        None => trippy_core::NatStatus::NotApplicable,
+        Some(false) => trippy_core::NatStatus::NotDetected,
+        Some(true) => trippy_core::NatStatus::Detected,
+    }
 }
 
 /// Compare one hop of the real state with the model.
@@ -396,6 +416,7 @@ pub fn compare_hop(ctx: &str, hop: &Hop, m: &HopModel, max_samples: usize) -> Ch
     eq!("last_icmp_packet_type", hop.last_icmp_packet_type(), last_complete.as_ref().map(|x| x.0));
     eq!("tos", hop.tos(), last_complete.as_ref().and_then(|x| x.1));
     eq!("extensions", hop.extensions().cloned(), last_complete.as_ref().and_then(|x| x.2.clone()));
+    eq!("last_nat_status", hop.last_nat_status(), model_nat(m));
     // bounded newest-first history
     let mut samples: Vec<Duration> = m
         .events
